@@ -7,8 +7,10 @@ queries q.  `reference(world)` computes the VALUE of every abstract term by exec
 records, after every call, the projection of every live object plus digests of all caller-owned arrays.
 Nothing here compares anything: TLC (TR_Lifecycle) does.
 """
+import contextlib
 import copy
 import hashlib
+import io
 import pickle
 import warnings
 import numpy as np
@@ -119,6 +121,14 @@ class World:
       if name == 'RCA_Supervised':
         o['n_chunks'] = 4
       self.P.append(o)
+    # a third setting that differs from the first only in `verbose` (printing must not change what is learned);
+    # estimators without that parameter get a plain copy
+    p3 = dict(self.P[0])
+    if 'verbose' in gen.CLS[name]().get_params():
+      p3['verbose'] = True
+    self.P.append(p3)
+    self.canon = [1, 2, 1]
+    self.has_fit_transform = hasattr(gen.CLS[name], 'fit_transform')
     self.T = [0.75, 2.5]
     # validation sets and queries per data dimension
     self.V, self.Q = [], []
@@ -195,9 +205,15 @@ class World:
 
   def fit(self, est, d):
     tr = self.train[d - 1]
-    with warnings.catch_warnings():
+    with warnings.catch_warnings(), contextlib.redirect_stdout(io.StringIO()):
       warnings.simplefilter('ignore')
       est.fit(*tr['fit_args'], **tr['fit_kwargs'])
+
+  def fit_transform(self, est, d):
+    tr = self.train[d - 1]
+    with warnings.catch_warnings(), contextlib.redirect_stdout(io.StringIO()):
+      warnings.simplefilter('ignore')
+      return est.fit_transform(*tr['fit_args'], **tr['fit_kwargs'])
 
   def dim_index_of(self, est):
     """index (0-based) of a data set with the estimator's current dimensionality"""
@@ -242,7 +258,7 @@ def reference(w):
   ref = {'nt': w.nt, 'ns': w.ns, 'arrays': w.arrays_digest(),
          'params': [w.params_digest(w.new(p)) for p in range(1, np_ + 1)],
          'model': [], 'thrfit': [], 'thrset': [digest(float(t)) for t in w.T], 'thrcal': [], 'query': [],
-         'metric': [], 'matrix': []}
+         'metric': [], 'matrix': [], 'fit_transform': []}
   nq = len(w.qnames)
   nk = 1 + w.nt + w.nv * w.ns
   defaults = dict(gen.CLS[w.name]().get_params())
@@ -252,7 +268,7 @@ def reference(w):
     full.update(w.P[pc - 1])
     e.set_params(**full)
   for p in range(1, np_ + 1):
-    rm, rt, rc, rq, rme, rma = [], [], [], [], [], []
+    rm, rt, rc, rq, rme, rma, rft = [], [], [], [], [], [], []
     for d in range(1, nd + 1):
       def fresh():
         e = w.new(p)
@@ -260,32 +276,49 @@ def reference(w):
         return e
       none_q = [[['none'] * nq for _ in range(nk)] for _ in range(np_)]
       none_c = [[['none'] * w.ns for _ in range(w.nv)] for _ in range(np_)]
+      if w.canon[p - 1] != p:
+        # model terms only ever carry canonical settings (MetricLearn!Canon): no value needed
+        rm.append('noncanonical'); rt.append('none'); rc.append(none_c); rq.append(none_q); rme.append('none'); rma.append('none'); rft.append('none')
+        continue
       try:
         e = fresh()
       except ValueError:
         # this parameter setting cannot be fitted on this data (dimension-specific array): no value
-        rm.append('unfittable'); rt.append('none'); rc.append(none_c); rq.append(none_q); rme.append('none'); rma.append('none')
+        rm.append('unfittable'); rt.append('none'); rc.append(none_c); rq.append(none_q); rme.append('none'); rma.append('none'); rft.append('none')
         continue
       rm.append(digest(np.asarray(e.components_)))
       rt.append(digest(float(e.threshold_)) if w.has_thr else 'none')
       rme.append(digest(w.probe_metric(e.get_metric(), w.dims.index(w.dims[d - 1]))))   # probes depend on the dimension only
       rma.append(digest(e.get_mahalanobis_matrix()))
+      if w.has_fit_transform:
+        try:
+          rft.append(digest(np.asarray(w.fit_transform(w.new(p), d))))
+        except Exception as ex:
+          rft.append('raised:' + type(ex).__name__)
+      else:
+        rft.append('none')
       qs_all, cal_all = [], []
       for pc in range(1, np_ + 1):
         qs = [['none'] * nq for _ in range(nk)]
         cal = [['none'] * w.ns for _ in range(w.nv)]
         for k in range(nk):
           # which (threshold variant k, preprocessor-in-force pc) combinations are reachable: see MetricLearn.tla
-          if not w.has_thr and (k > 0 or pc != p):
+          # which (threshold variant k, preprocessor-in-force pc) combinations are reachable: see MetricLearn.tla.
+          # p is a CANONICAL setting; an object whose model term is <<p, d>> was fitted with some setting f, Canon(f) = p.
+          same_model = (w.canon[pc - 1] == p)
+          if not w.has_thr and (k > 0 or not same_model):
             continue
-          if k == 0 and pc != p:
+          if k == 0 and not same_model:
             continue
           try:
-            e2 = fresh()
-            if pc != p:
+            if same_model:
+              e2 = w.new(pc)
+              w.fit(e2, d)
+            else:
+              e2 = fresh()
               switch(e2, pc)
             if 1 <= k <= w.nt:
-              if pc != p:
+              if not same_model:
                 w.calibrate(e2, 1, 1)          # (re-prepares the inputs: the new preprocessor comes into force)
               e2.set_threshold(w.T[k - 1])
             elif k > w.nt:
@@ -300,7 +333,7 @@ def reference(w):
       rc.append(cal_all)
       rq.append(qs_all)
     ref['model'].append(rm); ref['thrfit'].append(rt); ref['thrcal'].append(rc); ref['query'].append(rq)
-    ref['metric'].append(rme); ref['matrix'].append(rma)
+    ref['metric'].append(rme); ref['matrix'].append(rma); ref['fit_transform'].append(rft)
   return ref
 
 
@@ -315,6 +348,8 @@ def run(w, ops):
   for op in ops:
     kind = op[0]
     ev = {'ev': kind, 'exc': '', 'out': '', 'identical': True}
+    _silence = contextlib.redirect_stdout(io.StringIO())
+    _silence.__enter__()
     try:
       if kind == 'New':
         kwargs = w.P[op[1] - 1]
@@ -341,6 +376,9 @@ def run(w, ops):
       elif kind == 'Fit':
         ev['obj'], ev['data'] = op[1], op[2]
         w.fit(objs[op[1] - 1], op[2])
+      elif kind == 'FitTransform':
+        ev['obj'], ev['data'] = op[1], op[2]
+        ev['out'] = digest(np.asarray(w.fit_transform(objs[op[1] - 1], op[2])))
       elif kind == 'SetThreshold':
         ev['obj'], ev['t'] = op[1], op[2]
         objs[op[1] - 1].set_threshold(w.T[op[2] - 1])
@@ -375,6 +413,8 @@ def run(w, ops):
     except Exception as e:
       ev['exc'] = type(e).__name__
       ev['exc_msg'] = str(e)[:160]
+    finally:
+      _silence.__exit__(None, None, None)
     snapshot(ev)
   return events
 
@@ -394,8 +434,8 @@ def ops_from_last(states):
       ops.append(['New', last[2]])
     elif k in ('Clone', 'Pickle', 'GetMetric', 'GetMatrix'):
       ops.append([k, last[1]])
-    elif k == 'Fit':
-      ops.append(['Fit', last[1], last[2]])
+    elif k in ('Fit', 'FitTransform'):
+      ops.append([k, last[1], last[2]])
     elif k in ('SetParams', 'SetThreshold'):
       ops.append([k, last[1], last[2]])
     elif k == 'Calibrate':
